@@ -60,6 +60,9 @@ def benignRebinds : List String := ["__init__._utils", "__init__.ansi_string", "
 
 def benignCrossWrites : List String := ["sql_parser.mysql_parser:=utils.emit_warning_for_double_quotes"]
 
+/-- writes into what they were given that `scrub` and the formatter are allowed (none: reviewed on the pinned tree) -/
+def allowedArgumentWrites : List String := []
+
 /-- source forms under which the default NULL node is a new object per slot -/
 def nullSlotFreshForms : List String := ["{'null': {}} if null is SQL_NULL else null"]
 
